@@ -220,7 +220,7 @@ def grp_cases(rng, tier, mid=4):
 REF_OPS = [[0, 5, -3], [6, 2], [6, -1], [6, 5], [7, 4], [7, 3], [7, -1], [8, 200], [8, 7], [9, 7], [10, 0], [10, 1], [10, 3], [10, 2, 1, 5], [10, 1, 2, 5], [10, 3, 1, 8], [10, 0, 1, 4], [10, 9, 2, 3], [10, 2, 0, 6], [10, 1, 1, 0], [12, 255, 70000, -5], [13], [14],
            [16, 5], [16, -2], [18, 4], [18, -9], [19, 0], [19, 1], [19, 13], [19, -7], [19, 65535], [20, 3], [20, -1], [21, 9], [35, 0], [35, 1], [35, 2, 0], [35, 2, 5], [36, 1, 0], [36, 2, 255], [36, 0, -1], [36, 1, -1], [37, -1], [37, 255, 7, -3], [37, 0, 0, 0], [38, 3], [38, 4], [38, 0], [39, 0], [39, 1], [39, 2], [39, -7], [31, 97, 0], [31, 955, 1], [31, 8364, 0], [31, 128512, 0], [31, 255, 1], [31, 1114111, 1], [32, -5, 77, -3], [32, 2 ** 62, -1, 127], [33, 1078530011, 4614253070214989087], [33, 2143289344, 0], [34, 300, 8364], [34, 65535, 97], [26, 0], [26, 1], [26, 5], [26, 13], [26, 65536], [26, -7], [27, 0], [27, -1], [27, -22], [27, 70000], [27, 2147483647], [27, -2147483648], [28, 4], [28, -21], [28, 70001],
            [22, 4], [22, 7], [23, 21], [24], [25, 2], [25, 0]]
-MUT_OPS = [[1, 5], [1, 0], [1, 24], [2, 3], [2, 0], [3, 4], [3, 0], [4, 6], [4, 0], [5, 0], [5, 1], [5, 2], [5, 3], [5, 4], [5, 5], [5, 6], [5, 7], [5, 8], [11, 0], [11, 4], [15], [17, 2], [17, 3], [29, 0, 5], [29, 1, 5], [29, 2, 8], [29, 1, 0], [30, 0], [30, 1], [30, 2], [29, 2, 3], [30, 1]]
+MUT_OPS = [[1, 5], [1, 0], [1, 24], [2, 3], [2, 0], [3, 4], [3, 0], [4, 6], [4, 0], [5, 0], [5, 1], [5, 2], [5, 3], [5, 4], [5, 5], [5, 6], [5, 7], [5, 8], [11, 0], [11, 4], [15], [17, 2], [17, 3], [40, 0], [40, 2], [40, 5], [40, 6], [40, 7], [41, 0], [41, 2], [41, 3], [41, 5], [41, 8], [42, 1], [42, 2], [42, 3], [42, 7], [29, 0, 5], [29, 1, 5], [29, 2, 8], [29, 1, 0], [30, 0], [30, 1], [30, 2], [29, 2, 3], [30, 1]]
 
 
 def shapes_cases(rng, tier):
@@ -242,6 +242,8 @@ def shapes_cases(rng, tier):
                     o[1] = abs(o[1]) % 25
                 if o[0] in (29, 30):
                     o[1] = abs(o[1]) % 3
+                if o[0] in (40, 41, 42):
+                    o[1] = abs(o[1]) % 9
                 if o[0] == 5:
                     o[1] = abs(o[1]) % 9
             ops.append(o)
@@ -837,6 +839,17 @@ def layout_cases(rng, tier):
         cases.append(xline(0, b0, 0, ed(lambda r: r[0].__setitem__(1, 16 * 3 + lt)), 1))  # renamed
         cases.append(xline(0, b0, 0, ed(lambda r: r.append(method_row(0, 16 * 4, 0, 0, []))), 1))   # added
         cases.append(xline(0, b0, 0, ed(lambda r: r.pop()), 1))                           # removed
+    # the element type inside every auto-wrapped shape is part of the C type: a change of it alone must be rejected
+    # (argument shapes 1 &[T], 2 &mut [T], 4 Option<T>, 5 Option<&T>, 7 &mut T, 8 OpaqueCallback<T>, 10 &T, 11 CIterator<T>, 12 Result<T, u8>; return shapes 2 &[T], 4 Option<T>, 8 &mut [T], 11 Result<T, u8>)
+    for sh in (1, 2, 4, 5, 7, 8, 10, 11, 12):
+        bw = [method_row(1, 16 * 1, 0, 0, [(sh, 0), (0, 2)]), method_row(0, 16 * 2, 1, 2, [])]
+        r = copy.deepcopy(bw); r[0][6] = 3                     # element type u8 -> u64
+        cases.append(xline(0, bw, 0, bw, 0))
+        cases.append(xline(0, bw, 0, r, 1))
+    for rs in (2, 4, 8, 11):
+        bw = [method_row(1, 16 * 1, rs, 0, []), method_row(0, 16 * 2, 1, 2, [])]
+        r = copy.deepcopy(bw); r[0][3] = 3                     # returned element type u8 -> u64
+        cases.append(xline(0, bw, 0, r, 1))
     # the same canonical edits inside a trait that is a MANDATORY (role 0) / OPTIONAL (role 1) member of a group: the group's verdict must follow
     for c in [x for x in cases if x.startswith("20 ") and len(x.split("|")[0].split()) == 4]:
         h, body = c.split("|", 1)
